@@ -37,7 +37,32 @@ def fresh_model(kind, metric=None, pre=False):
     return m
 
 
-def fit_program(prog, fresh=False):
+def cache_key(prog):
+    return (prog["model"], None if prog["mode"] == "pre" else prog["metric"], prog["mode"] == "pre")
+
+
+def replay_with_history(run_case, prog):
+    """Replays a recorded program.  Model objects are re-used across cases during exploration
+    (every fit runs on a used object); a violation therefore records the program that ran on the
+    same object just before ("previous"), and the replay re-creates that one-step history on a
+    fresh object."""
+    prev = prog.get("previous")
+    cur = {k: v for k, v in prog.items() if k != "previous"}
+    if prev is None:
+        return run_case(cur)
+    kind, metric, pre = cache_key(cur)
+    m = fresh_model(kind, metric, pre)
+    try:
+        run_case(prev, None, m)
+    except Exception:
+        pass
+    v = run_case(cur, None, m)
+    if v is not None:
+        v["program"] = dict(cur, previous=prev)
+    return v
+
+
+def fit_program(prog, fresh=False, model=None):
     """prog: {"model", "mode": "pre"|"features", "W"|("X","metric"), "labels",
     "n_unlabeled"(semi)}.  In mode "pre" nodes are addressed by I_train =
     prog.get("I_train", 0..n_l-1) into W; unlabeled node i is addressed as
@@ -49,6 +74,9 @@ def fit_program(prog, fresh=False):
     nl = len(lab)
     nu = int(prog.get("n_unlabeled", 0))
     mk = fresh_model if fresh else get_model
+    if model is not None:
+        def mk(*a):  # noqa: E306  (the caller supplies the - possibly used - object)
+            return model
     if prog["mode"] == "pre":
         W = np.array(prog["W"], dtype=float)
         m = mk(kind, None, True)
